@@ -69,6 +69,26 @@ def l0(ctx):
             ok = h is not None and any(b.kind == "raise" and b.extra.get("exc") == "LockedError" for b in handler_body_nodes(cfg, h))
             obs.append(ctx.ob(ok, fi.qualname, where(fi, w), "FileLocked -> LockedError", "a held lock is reported as LockedError",
                               "FileLocked raised by locked_index is not translated to LockedError in %s" % fi.short))
+    # the index is read only after the lock file has been taken
+    li = ctx.P.cls("xandikos.store.git.locked_index")
+    reads = []
+    for mname, m in li.methods.items():
+        cfgm = ctx.cfg(m)
+        for n in cfgm.stmt_nodes():
+            for c in n.calls():
+                d = (dotted(c.func) or "").split(".")[-1]
+                if d in ("Index", "open_index", "read_index", "read_index_dict"):
+                    reads.append((m, n))
+    if not reads:
+        raise AnalysisError("locked_index: the statement that reads the index was not found")
+    for m, n in reads:
+        cfgm = ctx.cfg(m)
+        locks = [x for x in cfgm.stmt_nodes() for c in x.calls() if (dotted(c.func) or "").split(".")[-1] == "GitFile"]
+        ok = m.name == "__enter__" and bool(locks) and cfgm.normal_completion_dominates(locks, n)
+        obs.append(ctx.ob(ok, m.qualname, where(m, n), "index is read after the lock file is taken",
+                          "`%s` follows GitFile(path, 'wb') in __enter__" % node_desc(n),
+                          "`%s` in locked_index.%s reads the index before (or without) taking <index>.lock: a writer that is preempted between "
+                          "the read and the lock writes back a stale index and the other writer's entry is lost" % (node_desc(n), m.name)))
     for cq, nm in WEB_IMPORT_SITES:
         fi = ctx.own_method(cq, nm)
         for n in import_call_nodes(ctx, fi):
